@@ -190,11 +190,20 @@ Definition judge (c : case19) : list Z :=
   let sens := (bit (negb (sem_same sl (snd (svg_sem_gen false d)))) 1
               + bit (aspect_mismatch d) 2
               + bit (has_skew_attrs (dattrs d) || existsb node_has_skew (dkids d)) 4)%Z in
+  (* the same property flags against the cascade that ignores specificity (rules in order of appearance): 0 = the drawing is
+     exactly what that cascade prescribes, which makes the trigger of the known finding css-specificity-ignored exact also when
+     the difference makes a shape appear or disappear *)
+  let '(oW, oH, ol) := svg_sem_gen false d in
+  let o2 := negb (Nat.eqb (List.length ol) (List.length gl)) in
+  let o4 := negb (all2 (fun s g => geom_same (lgeom g) (lmat g) (lgeom s) (lmat s)) ol gl) in
+  let o8 := negb (all2 (fun s g => paint_same (lstyle s) (lstyle g)) ol gl) in
+  let o16 := negb (all2 (fun s g => stroke_same (lstyle s) (lstyle g)) ol gl) in
   [ (if ok then bit p1 1 + bit p2 2 + bit p4 4 + bit p8 8 + bit p16 16 else 0) + bit (kErr c) 32 + bit (kBad c) 64;
     (if ok then bit t1 1 + bit t2 2 + bit t4 4 + bit t8 8 + bit t16 16 else 0);
     sens;
     Z.of_nat (List.length got); Z.of_nat (List.length sl);
-    Z.of_nat (List.length (doc_events d)) ]%Z.
+    Z.of_nat (List.length (doc_events d));
+    (if ok then bit p1 1 + bit o2 2 + bit o4 4 + bit o8 8 + bit o16 16 else 64) ]%Z.
 
 (* ---- library round trip: a drawing, written by renderers/svg, read back by ParseSVG ---- *)
 Record rtcase := mkRT { rW : Q; rH : Q; rOrig : list layer; bW : Q; bH : Q; rBack : list layer; rBad : bool }.
